@@ -320,12 +320,28 @@ def tame(t, env, rng):
     return ("bin", t[1], a, b)
 
 
+def _group_then_operator(text: str) -> bool:
+    t = text.lstrip(" ")
+    depth = 0
+    for i, ch in enumerate(t):
+        if ch == "(":
+            depth += 1
+        elif ch == ")":
+            depth -= 1
+            if depth == 0:
+                rest = t[i + 1:].lstrip(" ")
+                return bool(rest) and rest[0] in "+-*&|<>"
+    return False
+
+
 def tree_case(rng, tree, env, kind, extra=0.0, spacing=True):
     tree = fix(tree, rng, extra)
     env = {k: v for k, v in env.items() if k in ids_of(tree)}
     text = render(tree, rng, spacing)
     ctxs = ["str", "imm"]
-    if not text.lstrip(" ").startswith("("):
+    if not text.lstrip(" ").startswith("(") or _group_then_operator(text):
+        # a non-immediate operand that begins with a parenthesised group is a plain expression (not an indirection)
+        # exactly when an operator follows the group: `lda.l (1+2)*3`
         ctxs.append("long")
     if directive_ok(tree):
         ctxs += ["dl", "assign"]
